@@ -25,7 +25,7 @@ LEVEL_TEXT = ("Analytic polar-stereographic grids (random pole, rotation, resolu
 LEVEL_NOTE = "Position error bound = 1.5*sqrt(tol)/sigma_min(J) with tol = 1e-7 (bilin_inv's stopping rule), J = local Jacobian in degrees per cell; trusts numpy/netCDF4 and the closed-form projection in the harness."
 RULE = ("cases: sample2d chunks (random fields/masks/positions/substitutes), roundtrip (one grid x subgrid x 2000 positions), e2e (lon/lat release + lon/lat output, sparse and dense). "
         "Non-trivial: positions within one cell of the rim of the valid region are present / masked or outside points present; distinct by grid parameters.")
-MANDATORY = ["pole_a_few_cells_outside_the_domain", "e2e_release_rows_sharing_a_longitude_or_a_latitude", "xy2ll_positions_in_cells_with_a_land_corner", "e2e_lonlat_output_in_cells_with_a_land_corner", "e2e_grid_module_ROMS2_lonlat_release", "e2e_lonlat_stored_packed", "positions_within_1e-9_of_a_masked_edge", "grid_longer_than_700_cells", "e2e_inactive_particles", "e2e_split_output_files", "post_sample2D", "roundtrip_positions", "longitudes_beyond_180", "rim_positions", "subgrid", "outside_value_zero", "outside_value_nan", "masked_corner",
+MANDATORY = ["e2e_dense_layout_with_a_gap_in_the_living_pids", "ll2xy_call_with_targets_outside_the_grid_among_the_others", "pole_a_few_cells_outside_the_domain", "e2e_release_rows_sharing_a_longitude_or_a_latitude", "xy2ll_positions_in_cells_with_a_land_corner", "e2e_lonlat_output_in_cells_with_a_land_corner", "e2e_grid_module_ROMS2_lonlat_release", "e2e_lonlat_stored_packed", "positions_within_1e-9_of_a_masked_edge", "grid_longer_than_700_cells", "e2e_inactive_particles", "e2e_split_output_files", "post_sample2D", "roundtrip_positions", "longitudes_beyond_180", "rim_positions", "subgrid", "outside_value_zero", "outside_value_nan", "masked_corner",
              "all_masked", "outside_raises", "e2e_lonlat_release", "e2e_lonlat_output", "exact_bilinear_field", "fine_grid_below_250m", "e2e_fine_grid_below_250m"]
 ASSUMPTIONS = ["grids are conformal and smooth (polar stereographic) as the property quantifies; the branch cut of longitude is kept outside the grid"]
 TIMEOUT = {"quick": 600, "thorough": 3000}
@@ -299,6 +299,18 @@ def _case_roundtrip(case, R, wd, V, sit, cnt, keys):
         return
     X2, Y2 = np.asarray(X2, float), np.asarray(Y2, float)
     _bump(sit, "roundtrip_positions", n)
+    # the same targets in one call with two targets far outside the (sub)grid: the answer for a point does not depend on the other points of the call
+    olon, olat = W.polar_lonlat(np.array([g.xmax + 12.0, g.xmin - 9.0]), np.array([g.ymax + 15.0, g.ymin - 7.0]), pol)
+    try:
+        X3, Y3 = g.ll2xy(np.concatenate([lon, olon]), np.concatenate([lat, olat]))
+        X3, Y3 = np.asarray(X3, float)[:n], np.asarray(Y3, float)[:n]
+        _bump(sit, "ll2xy_call_with_targets_outside_the_grid_among_the_others")
+        if not (np.array_equal(X3, X2) and np.array_equal(Y3, Y2)):
+            i_ = int(np.nanargmax(np.hypot(X3 - X2, Y3 - Y2)))
+            V.append(C.viol(f"ll2xy gives ({X3[i_]:.6f},{Y3[i_]:.6f}) for a target when two targets outside the grid are in the same call, ({X2[i_]:.6f},{Y2[i_]:.6f}) without them "
+                            f"(true position ({X[i_]:.6f},{Y[i_]:.6f}))", **desc))
+    except Exception as e:  # noqa: BLE001
+        V.append(C.viol(f"ll2xy failed when targets outside the grid were among the targets: {type(e).__name__}: {e}", **desc))
     # local Jacobian (degrees per cell) from the closed form
     h = 1e-3
     lx1, la1 = W.polar_lonlat(X + h, Y, pol)
@@ -405,7 +417,8 @@ def _case_e2e(case, wd, V, sit, cnt, keys):
     run = dict(start=start, stop=stop, dt=dt, advection="EF", subgrid=sub,
                release=dict(columns=cols, rows=rows, header=True),
                state=dict(instance_variables=dict(lon="float", lat="float"), default_values=dict(lon=0.0, lat=0.0)),
-               ibm=dict(module=C.REC_IBM, deactivate={"1": [1, 3]}, log=False) if case["idx"] % 2 else {},
+               # (dense layout: a particle with a low pid is removed early on, so that the living pids have a gap)
+               ibm=dict(module=C.REC_IBM, deactivate={"1": [1, 3]}, log=False) if case["idx"] % 2 else (dict(module=C.REC_IBM, kill={"0": [1]}, log=False) if layout == "dense" else {}),
                output=dict(period=dt, layout=layout, numrec=[0, 2, 1][case["idx"] % 3], instance=dict(pid="i4", X="f8", Y="f8", Z="f8", lon="f8", lat="f8")))
     lltol = 1e-9
     if case["idx"] % 4 == 1:
@@ -468,6 +481,8 @@ def _case_e2e(case, wd, V, sit, cnt, keys):
     _bump(sit, "e2e_lonlat_output", ncmp)
     if case["idx"] % 2:
         _bump(sit, "e2e_inactive_particles")
+    elif layout == "dense":
+        _bump(sit, "e2e_dense_layout_with_a_gap_in_the_living_pids")
     if len(res.outputs) > 1:
         _bump(sit, "e2e_split_output_files")
         for f in read_outputs(res.outputs):
